@@ -125,7 +125,8 @@ def replace_value(stmt, index, new_text):
 def apply_edit(texts, edit):
     '''
     One edit of the BridgePoint model, as an edit of its rows: 'retype' points a user data type at another core
-    type, 'move' puts a class into the package of another class.  Returns the edited rows or None.
+    type, 'retype_attr' gives an identifying attribute another core type, 'move' puts a class into the package of
+    another class.  Returns the edited rows or None.
     '''
     rows = [values_of(t) for t in texts]
     if edit['kind'] == 'retype':
@@ -136,6 +137,18 @@ def apply_edit(texts, edit):
         others = [c for c in CORE_IDS[1:4] if c != rows[i][1][1]]
         out = list(texts)
         out[i] = replace_value(texts[i], 1, others[edit['to'] % len(others)])
+        return out
+    if edit['kind'] == 'retype_attr':
+        # an identifying attribute (one that other classes may refer to) is given another core type
+        ident = set(v[0] for table, v in rows if table == 'O_OIDA' and v)
+        cand = [i for i, (table, v) in enumerate(rows) if table == 'O_ATTR' and len(v) >= 9 and v[8] in CORE_IDS
+                and v[0] in ident]
+        if not cand:
+            return None
+        i = cand[edit['pick'] % len(cand)]
+        others = [c for c in CORE_IDS[1:4] if c != rows[i][1][8]]
+        out = list(texts)
+        out[i] = replace_value(texts[i], 8, others[edit['to'] % len(others)])
         return out
     if edit['kind'] == 'move':
         objs = set(v[0] for table, v in rows if table == 'O_OBJ' and v)
@@ -248,7 +261,7 @@ class ModelOrderEngine(Engine):
                'derived': sw.random() < 0.5, 'real_ctor': sw.random() < 0.1, 'globals': True}
         if prop in ('C14', 'C20') and sw.random() < 0.3:
             # an edited variant of the model, extracted by this (warm) process and by a freshly imported library
-            cfg['edit'] = {'kind': sw.choice(['retype', 'move']), 'pick': sw.randrange(64), 'to': sw.randrange(8)}
+            cfg['edit'] = {'kind': sw.choice(['retype', 'move', 'retype_attr']), 'pick': sw.randrange(64), 'to': sw.randrange(8)}
         ops = list(range(len(stmts)))
         return {'prop': prop, 'engine': self.name, 'seed': seed, 'cfg': cfg, 'ops': ops}
 
